@@ -26,7 +26,7 @@ class PersLandscape(ABC):
     """
 
     def __init__(self, dgms: list = [], hom_deg: int = 0) -> None:
-        if not isinstance(hom_deg, int):
+        if not isinstance(hom_deg, numbers.Integral):
             raise TypeError("hom_deg must be an integer")
         if hom_deg < 0:
             raise ValueError("hom_deg must be positive")
